@@ -276,6 +276,10 @@ class Repo:
 
         def sub(mo):
             w = mo.group(0)
+            if mo.group(1) is not None:
+                return w            # string literal: left alone
+            if mo.end() < len(text) and text[mo.end()] in '\'"':
+                return w            # string prefix (f'..', b'..')
             # attribute names (preceded by '.') are left alone
             i = mo.start()
             if i > 0 and text[i - 1] == '.':
@@ -296,7 +300,7 @@ class Repo:
             return w
         # protect string literals: operate on unparse of a constant-masked copy is overkill;
         # identifiers inside string literals are rare in the constructs we key on.
-        out = re.sub(r'[A-Za-z_][A-Za-z_0-9]*', sub, text)
+        out = re.sub(r'''('(?:[^'\\]|\\.)*'|"(?:[^"\\]|\\.)*")|[A-Za-z_][A-Za-z_0-9]*''', sub, text)
         return ' '.join(out.split())
 
 
